@@ -94,42 +94,158 @@ def updateBalanceMetric (s : WState) (mIn mOut iIn iOut : Nat) : Except Fault (N
     | none => .error .negImmature
     | some i => .ok (b, i)
 
-/-- `WalletApplyIndex(index, created, spent, events)` -/
-def applyIndex (s : WState) (d : Diff) : Except Fault WState := do
-  let t1 ← deleteElems s.utxos d.spent
-  let t2 := createElems t1 d.created
-  let ev := createEvents d.blk s.events d.events
-  let matured := maturedAt d.h t2
-  let (b, i) ← updateBalanceMetric s
-    (matureSum d.h d.created + matured) (matureSum d.h d.spent)
-    (immatureSum d.h d.created) (immatureSum d.h d.spent + matured)
-  pure { utxos := t2, events := ev, balance := b, immature := i, height := d.h }
+/-- Variants of the code the correspondence run accepts: the tree as found (`asFound`) or a tree in
+which the defect this model exposes has been repaired.  Theorems are stated per variant. -/
+structure Variant where
+  /-- `WalletApplyIndex` classifies a *spent* element as mature when `maturity < h` (it was mature
+  before this block) instead of `maturity ≤ h` (as found: `deleteSiacoinElements` compares with the
+  height of the block being applied, although the maturation of height `h` has not been booked yet
+  and no longer sees the deleted row) -/
+  spentLt : Bool := false
+deriving DecidableEq, Repr
 
-/-- `WalletRevertIndex(index, removed, unspent)`; afterwards the processed height is the parent's -/
-def revertIndex (s : WState) (d : Diff) : Except Fault WState := do
-  let t1 ← deleteElems s.utxos d.created
-  let t2 := createElems t1 d.spent
-  let ev := s.events.filter (fun e => e.blk != d.blk)
+def asFound : Variant := { spentLt := false }
+def repaired : Variant := { spentLt := true }
+
+def spentMatureSum (v : Variant) (h : Nat) (l : List Utxo) : Nat :=
+  if v.spentLt then ((l.filter (fun u => decide (u.maturity < h))).map (·.value)).sum else matureSum h l
+def spentImmatureSum (v : Variant) (h : Nat) (l : List Utxo) : Nat :=
+  if v.spentLt then ((l.filter (fun u => !decide (u.maturity < h))).map (·.value)).sum else immatureSum h l
+
+/-- the four arguments of `updateBalanceMetric` -/
+structure Flows where
+  mIn : Nat
+  mOut : Nat
+  iIn : Nat
+  iOut : Nat
+deriving DecidableEq, Repr
+
+/-- table part of `WalletApplyIndex(index, created, spent, events)` and the flows it books -/
+def applyTables (v : Variant) (utxos : List Utxo) (events : List Ev) (d : Diff) :
+    Except Fault (List Utxo × List Ev × Flows) := do
+  let t1 ← deleteElems utxos d.spent
+  let t2 := createElems t1 d.created
+  let ev := createEvents d.blk events d.events
   let matured := maturedAt d.h t2
-  let (b, i) ← updateBalanceMetric s
-    (matureSum d.h d.spent) (matureSum d.h d.created + matured)
-    (immatureSum d.h d.spent + matured) (immatureSum d.h d.created)
-  pure { utxos := t2, events := ev, balance := b, immature := i, height := d.h - 1 }
+  pure (t2, ev, { mIn := matureSum d.h d.created + matured, mOut := spentMatureSum v d.h d.spent,
+                  iIn := immatureSum d.h d.created, iOut := spentImmatureSum v d.h d.spent + matured })
+
+/-- table part of `WalletRevertIndex(index, removed, unspent)` -/
+def revertTables (utxos : List Utxo) (events : List Ev) (d : Diff) :
+    Except Fault (List Utxo × List Ev × Flows) := do
+  let t1 ← deleteElems utxos d.created
+  let t2 := createElems t1 d.spent
+  let ev := events.filter (fun e => e.blk != d.blk)
+  let matured := maturedAt d.h t2
+  pure (t2, ev, { mIn := matureSum d.h d.spent, mOut := matureSum d.h d.created + matured,
+                  iIn := immatureSum d.h d.spent + matured, iOut := immatureSum d.h d.created })
+
+/-- `WalletApplyIndex` with the metrics seen as one current value each -/
+def applyIndex (v : Variant) (s : WState) (d : Diff) : Except Fault WState := do
+  let (t, ev, f) ← applyTables v s.utxos s.events d
+  let (b, i) ← updateBalanceMetric s f.mIn f.mOut f.iIn f.iOut
+  pure { utxos := t, events := ev, balance := b, immature := i, height := d.h }
+
+/-- `WalletRevertIndex`; afterwards the processed height is the parent's -/
+def revertIndex (s : WState) (d : Diff) : Except Fault WState := do
+  let (t, ev, f) ← revertTables s.utxos s.events d
+  let (b, i) ← updateBalanceMetric s f.mIn f.mOut f.iIn f.iOut
+  pure { utxos := t, events := ev, balance := b, immature := i, height := d.h - 1 }
 
 inductive Op where
   | apply (d : Diff)
   | revert (d : Diff)
 deriving Repr
 
-def step (s : WState) : Op → Except Fault WState
-  | .apply d => applyIndex s d
+def step (v : Variant) (s : WState) : Op → Except Fault WState
+  | .apply d => applyIndex v s d
   | .revert d => revertIndex s d
 
-def run : WState → List Op → Except Fault WState
+def run (v : Variant) : WState → List Op → Except Fault WState
   | s, [] => .ok s
   | s, op :: ops => do
-      let s1 ← step s op
-      run s1 ops
+      let s1 ← step v s op
+      run v s1 ops
+
+/-! ### the metrics as stored: one row per 5-minute bucket of the *block timestamp*
+
+`incrementCurrencyStat(stat, delta, negative, timestamp)` reads
+`SELECT stat_value … WHERE stat=? AND date_created<=? ORDER BY date_created DESC LIMIT 1` with the
+truncated block timestamp and upserts the row of that bucket; `Metrics(now)` reports the row of the
+latest bucket.  Rows are kept sorted by bucket, newest first. -/
+
+abbrev Stat := List (Nat × Nat)
+
+def readAt (st : Stat) (ts : Nat) : Nat :=
+  match st.find? (fun r => decide (r.1 ≤ ts)) with
+  | some r => r.2
+  | none => 0
+
+def writeAt : Stat → Nat → Nat → Stat
+  | [], ts, v => [(ts, v)]
+  | (b, x) :: rest, ts, v =>
+    if ts > b then (ts, v) :: (b, x) :: rest
+    else if ts = b then (ts, v) :: rest
+    else (b, x) :: writeAt rest ts v
+
+/-- what `Metrics(now)` reports once `now` is past every bucket -/
+def latest : Stat → Nat
+  | [] => 0
+  | (_, v) :: _ => v
+
+def newestBucket : Stat → Nat
+  | [] => 0
+  | (b, _) :: _ => b
+
+/-- one `increment` call of `updateBalanceMetric`; a zero delta executes no statement -/
+def bumpStat (st : Stat) (ts inflow outflow : Nat) : Option Stat :=
+  if inflow = outflow then some st
+  else match bump (readAt st ts) inflow outflow with
+    | none => none
+    | some v => some (writeAt st ts v)
+
+structure BState where
+  utxos : List Utxo := []
+  events : List Ev := []
+  bal : Stat := []
+  imm : Stat := []
+  height : Nat := 0
+deriving Repr
+
+def updateBalanceMetricB (s : BState) (ts : Nat) (f : Flows) : Except Fault (Stat × Stat) :=
+  match bumpStat s.bal ts f.mIn f.mOut with
+  | none => .error .negBalance
+  | some b =>
+    match bumpStat s.imm ts f.iIn f.iOut with
+    | none => .error .negImmature
+    | some i => .ok (b, i)
+
+/-- an update together with the bucket of the block's timestamp -/
+structure TOp where
+  op : Op
+  ts : Nat
+deriving Repr
+
+def stepB (v : Variant) (s : BState) (o : TOp) : Except Fault BState :=
+  match o.op with
+  | .apply d => do
+      let (t, ev, f) ← applyTables v s.utxos s.events d
+      let (b, i) ← updateBalanceMetricB s o.ts f
+      pure { utxos := t, events := ev, bal := b, imm := i, height := d.h }
+  | .revert d => do
+      let (t, ev, f) ← revertTables s.utxos s.events d
+      let (b, i) ← updateBalanceMetricB s o.ts f
+      pure { utxos := t, events := ev, bal := b, imm := i, height := d.h - 1 }
+
+def runB (v : Variant) : BState → List TOp → Except Fault BState
+  | s, [] => .ok s
+  | s, o :: os => do
+      let s1 ← stepB v s o
+      runB v s1 os
+
+/-- the current values `Metrics(now)` shows -/
+def flat (s : BState) : WState :=
+  { utxos := s.utxos, events := s.events, balance := latest s.bal, immature := latest s.imm, height := s.height }
 
 /-! ### specification: the fold over the best chain alone -/
 
